@@ -21,6 +21,7 @@ CHECKS = {
  'C10': ('model_checking', 'tlc-algebra', 'The metadata rules (optional only if all optional; common default else None; agreed annotation else none; kinds only restrict; order; outer defaults dropped only before a required inner positional; partial keywords) as TLC invariants over a universe extended with distinct default and annotation ids, and evaluated by TLC on real results computed with real default/annotation objects.', '§5 C10'),
  'C12': ('model_checking', 'tlc-modifiers', 'spec/Modifiers.tla transcribes _PokTranslator._prepare (advertised signature, ValueError conditions, kwopos table), the start=/end=/exceptions= name-set computations and the args.insert routing loop of __call__; TLC checks over all base functions x selections x calls that _prepare raises exactly on inadmissible selections, advertises the rewrite the property demands, and that routing + binding to the original function delivers exactly what binding to the advertised signature prescribes. The same space is run on the real decorators (functions and methods on instances, four retrieval routes, every shape of the complete call set with distinguishable values) and TLC (Trace_Modifiers) evaluates admissibility, rewrite, accepts-exactly, full delivery map and TypeError-on-rejection on each event.', '§5 C12'),
  'C13': ('model_checking', 'tlc-wrap', 'spec/WrapMachine.tla: stacks of wrapper functions around a base function; the reported signature is the fold of the Forwards model and the invariant ChainSound says every non-colliding call it accepts passes the whole chain of CPython bindings (Wrappers!ChainOutcome), checked by TLC over simulated stacks of depth <= 3. Real stacks built with wrappers.decorator / wrappers.wrapper_decorator (function, method, staticmethod) and wrappers.Combination are retrieved through four routes and really called on the call set next to the hand-written composition; TLC (Trace_Wrap) checks result-equality for every call, soundness of every reported signature, method binding, wrappers() listing, and (drift) that ChainOutcome predicted which calls run.', '§5 C13'),
+ 'C14': ('model_checking', 'tlc-obj', 'spec/ObjModel.tla states the equality the property demands over abstract objects (family, upgraded or plain, plain-data id, upgraded-annotation id) and TLC checks it reflexive, symmetric, hash-consistent and twin-respecting over the menagerie (and shows it is not transitive). Real menageries (upgraded signatures through three routes, merge results, postponed annotations, plain twins, one-field variants, parameters, foreign objects) are compared in all ordered pairs with == / != / hash, and str / bind / bind_partial / replace are exercised next to plain twins; TLC (Trace_Obj) evaluates totality, symmetry, negation, reflexivity, agreement with SpecEq, hash laws, drop-in behaviour and replace semantics on every event.', '§5 C14'),
  'C15': ('model_checking', 'tlc-algebra', 'ValidSig / upgraded / +depths of every model result as TLC invariants; on the real code every outcome over role-inconsistent inputs, foreign and duplicate names, n up to len+2 and all flags is classified by TLC (signature / IncompatibleSignatures / ValueError / other), and each sampled case is re-run with plain inspect inputs (same parameters + DeprecationWarning).', '§5 C15'),
  'C16': ('model_checking', 'tlc-algebra + tlc-retrieval', 'Algebra purity: TLC compares deep projections of all inputs before/after every real call and the identities of all provenance containers of inputs and result. Crash points: see level_note.', '§5 C16'),
  'C18': ('model_checking', 'tlc-history', 'spec/ObjHist.tla models the caller\'s references, the weak-keyed descriptor cache and reclamation (invariants Reclaimed, NoStaleEntry; the pinned caching mode violates Reclaimed in two steps) and generates every history of use; spec/ModOrder.tla models stacked kwoargs/posoargs/autokwoargs applications (invariant: the state is a function of the set of steps, whatever admissible order). Every generated history is executed on fresh classes for 8 kinds of descriptor with each result compared to a fresh twin, calls checked to reach the right instance and dropped instances observed through weak references; every permutation of sampled modifier applications is really applied and the admissible ones compared on every route and on the complete call set; TLC (Trace_Hist) walks each history with ObjHist\'s state.', '§5 C18'),
@@ -33,7 +34,6 @@ NOTES = {
 PENDING = {
  'C07': 'check under construction (Retrieval model + corpus)',
  'C11': 'check under construction (annotation-context model)',
- 'C14': 'check under construction (ObjModel menagerie)',
  'C17': 'check under construction (concurrent Retrieval model + line-level scheduler)',
 }
 
@@ -69,6 +69,8 @@ def main():
              'kind_free_text': 'TLA+ model of decorator stacks (chain of bindings, fold of forwards); real stacks and Combinations executed next to the hand-written composition and validated by TLC'},
             {'name': 'tlc-history', 'path': 'spec/ObjHist.tla spec/ModOrder.tla spec/Trace_Hist.tla harness/hist.py harness/checks/c18.py', 'serves_properties': ['C18'],
              'kind_free_text': 'TLA+ model of references / descriptor cache / reclamation whose behaviours are histories of use, and of stacked modifier applications; histories replayed on real objects against fresh twins and validated by TLC'},
+            {'name': 'tlc-obj', 'path': 'spec/ObjModel.tla spec/Trace_Obj.tla harness/checks/c14.py', 'serves_properties': ['C14'],
+             'kind_free_text': 'TLA+ statement of the demanded equality/hash laws over a menagerie; all ordered pairs of real objects compared and validated by TLC'},
             {'name': 'tlc-exec', 'path': 'spec/Wrappers.tla spec/Trace_Exec.tla harness/progs.py', 'serves_properties': ['C04', 'C05', 'C06'],
              'kind_free_text': 'execution semantics of forwarding wrappers in TLA+; generated programs really executed and their outcomes validated by TLC'},
             {'name': 'tlc-pybind', 'path': 'spec/PyBind.tla spec/PyBindMachine.tla spec/Trace_PyBind.tla harness/checks/c20.py', 'serves_properties': ['C20'],
